@@ -12,10 +12,10 @@ ROOT = os.path.dirname(os.path.dirname(os.path.abspath(__file__)))
 # adversarial (prefix related, separator characters).  ',' is excluded (cache delimiter),
 # regex metacharacters are excluded from variants used by engines that read through the cache.
 GAMMAS = {
-    "g0": {"k1": "e1", "k2": "e2", "z1": "zA", "a1": "aB", "z2": "zC", "a2": "aD", "t1": "t1", "t2": "t2", "t3": "t3"},
-    "g1": {"k1": "eth1", "k2": "eth10", "z1": "a", "a1": "b", "z2": "aa", "a2": "bb", "t1": "x", "t2": "y", "t3": "z"},
-    "g2": {"k1": "x_y", "k2": "x", "z1": "a_b", "a1": "c", "z2": "a", "a2": "b_c", "t1": "1", "t2": "1_1", "t3": "11"},
-    "g3": {"k1": "a/b", "k2": "a", "z1": "p:q", "a1": "r s", "z2": "p", "a2": "q=r", "t1": "a/b", "t2": "b", "t3": "a"},
+    "g0": {"m1": "m1", "m2": "m2", "k1": "e1", "k2": "e2", "z1": "zA", "a1": "aB", "z2": "zC", "a2": "aD", "t1": "t1", "t2": "t2", "t3": "t3"},
+    "g1": {"m1": "a", "m2": "ab", "k1": "eth1", "k2": "eth10", "z1": "a", "a1": "b", "z2": "aa", "a2": "bb", "t1": "x", "t2": "y", "t3": "z"},
+    "g2": {"m1": "m_1", "m2": "m", "k1": "x_y", "k2": "x", "z1": "a_b", "a1": "c", "z2": "a", "a2": "b_c", "t1": "1", "t2": "1_1", "t3": "11"},
+    "g3": {"m1": "a/b", "m2": "b", "k1": "a/b", "k2": "a", "z1": "p:q", "a1": "r s", "z2": "p", "a2": "q=r", "t1": "a/b", "t2": "b", "t3": "a"},
 }
 
 def L(id, elems, typ, vals, entry=None, key=None, choice=None, case=None, default=None, kind="leaf", ns=None, state=False, fam=(), bad=()):
@@ -24,6 +24,7 @@ def L(id, elems, typ, vals, entry=None, key=None, choice=None, case=None, defaul
                 default=default, kind=kind, state=state, fam=list(fam), bad=[list(b) for b in bad])
 
 def item(k): return ["item", [["name", "$" + k]]]
+def mitem(k): return ["mitem", [["name", "$" + k]]]
 PAIR1 = ["pair", [["zone", "$z1"], ["app", "$a1"]]]
 PAIR2 = ["pair", [["zone", "$z2"], ["app", "$a2"]]]
 TRI1 = ["triple", [["k3", "$t3"], ["k1", "$t1"], ["k2", "$t2"]]]
@@ -41,6 +42,15 @@ LEAVES = [
     L("i1.xval", [item("k1"), ["xval", []]], "string", S, entry="i1", fam=["ns"]),
     L("i2.name", [item("k2"), ["name", []]], "string", ["key"], entry="i2", key="k2", fam=["core", "valid"]),
     L("i2.val", [item("k2"), ["val", []]], "string", S, entry="i2", fam=["core"]),
+    # list whose entries have a mandatory leaf (an entry may be removed as a whole)
+    L("m1.name", [mitem("m1"), ["name", []]], "string", ["key"], entry="m1", key="m1", fam=["mand"]),
+    L("m1.req", [mitem("m1"), ["req", []]], "string", S, entry="m1", fam=["mand"]),
+    L("m1.opt", [mitem("m1"), ["opt", []]], "string", S, entry="m1", fam=["mand"]),
+    L("m2.name", [mitem("m2"), ["name", []]], "string", ["key"], entry="m2", key="m2", fam=["mand"]),
+    L("m2.req", [mitem("m2"), ["req", []]], "string", S, entry="m2", fam=["mand"]),
+    L("m2.opt", [mitem("m2"), ["opt", []]], "string", S, entry="m2", fam=["mand"]),
+    # a leaf-list of a string type with length and pattern
+    L("pl.names", [["plain", []], ["names", []]], "leaf-list:string", ["ll:s:ab", "ll:s:ab|s:cd"], kind="leaflist", fam=["mand"], bad=[["ll:s:ab|s:abcdef", "length"], ["ll:s:zz|s:a1", "pattern"]]),
     # two-key list, keys declared non-alphabetically
     L("p1.zone", [PAIR1, ["zone", []]], "string", ["key"], entry="p1", key="z1", fam=["mkey"]),
     L("p1.app", [PAIR1, ["app", []]], "string", ["key"], entry="p1", key="a1", fam=["mkey"]),
@@ -162,7 +172,7 @@ def under(leaf, node, gamma):
 
 
 ENTRIES = {
-    "i1": [item("k1")], "i2": [item("k2")], "p1": [PAIR1], "p2": [PAIR2], "t1": [TRI1],
+    "i1": [item("k1")], "i2": [item("k2")], "m1": [mitem("m1")], "m2": [mitem("m2")], "p1": [PAIR1], "p2": [PAIR2], "t1": [TRI1],
 }
 
 def tla_str(s): return '"' + s.replace('\\', '\\\\').replace('"', '\\"') + '"'
